@@ -526,14 +526,15 @@ theorem runErr?_some (r : Run K) (e : Err) (h : runErr? r = some e) : r.result =
     suffices: the run ends in `RecursionError` having multiplied the buffer once per frame -/
 theorem inplaceUfunc_diverges (C : Ctx K) (o : OutInfo K) (c : Call K) (u : UnitR K) (u' : UnitV K)
     (h1 : (dispatch C c).effects = [.writeOut 0, .scaleOut, .setOutUnits 0 u'])
-    (h2 : o.unit = some u) (h3 : nestedCall C o u c.out = c) (hp : o.promotable = true) :
-    ∀ fuel, (inplaceUfunc true C o fuel c).result = .error .RuntimeError
-      ∧ (inplaceUfunc true C o fuel c).effects = List.replicate fuel (.kernel "ufunc") := by
+    (h2 : o.unit = some u) (h3 : nestedCall C o u c.out = c) (hp : o.promotable = true) (hw : o.writeable = true)
+    (rg : Bool) :
+    ∀ fuel, (inplaceUfunc true rg C o fuel c).result = .error .RuntimeError
+      ∧ (inplaceUfunc true rg C o fuel c).effects = List.replicate fuel (.kernel "ufunc") := by
   intro fuel
   induction fuel with
   | zero => exact ⟨rfl, rfl⟩
   | succ n ih =>
-    simp [inplaceUfunc, h1, convEffects, h2, h3, hp, ih.1, ih.2, List.replicate_succ]
+    simp [inplaceUfunc, h1, convEffects, h2, h3, hp, hw, ih.1, ih.2, List.replicate_succ]
 
 /-- RAW-BUFFER variant (`reenters = false`): the translation of the dispatcher's effects never
     fails and never recurses -/
@@ -545,10 +546,11 @@ theorem convEffects_raw (o : OutInfo K) (nested : K → IRun K) (mul : K) (es : 
     cases e <;> simp only [convEffects, ih]
 
 /-- … so the verdict is the dispatcher's -/
-theorem inplaceUfunc_raw_result (C : Ctx K) (o : OutInfo K) (fuel : Nat) (c : Call K)
-    (hp : ((prepOut C.T c.ufunc c.out : List (Effect K)).length != 0 && !o.promotable) = false) :
-    (inplaceUfunc false C o (fuel + 1) c).result = (dispatch C c).result.map (fun _ => ()) := by
-  simp only [inplaceUfunc, hp, Bool.false_eq_true, if_false, convEffects_raw]
+theorem inplaceUfunc_raw_result (rg : Bool) (C : Ctx K) (o : OutInfo K) (fuel : Nat) (c : Call K)
+    (hp : ((prepOut C.T c.ufunc c.out : List (Effect K)).length != 0 && !o.promotable) = false)
+    (hw : o.writeable = true) :
+    (inplaceUfunc false rg C o (fuel + 1) c).result = (dispatch C c).result.map (fun _ => ()) := by
+  simp only [inplaceUfunc, hp, hw, Bool.not_true, Bool.and_false, Bool.false_eq_true, if_false, convEffects_raw]
   cases (dispatch C c).result <;> rfl
 
 theorem prepOut_cases (T : Tables) (f : String) (out : OutSpec) :
